@@ -267,6 +267,7 @@ pub fn run(ctx: &Ctx, rep: &mut Report) {
         };
         let mut dead = false;
         let mut window = false;
+        let unknown_fns = unknown_entry_points("axelar-gateway", &["__constructor", "approve_messages", "call_contract", "epoch", "epoch_by_signers_hash", "is_message_approved", "is_message_executed", "message_approval", "message_approval_by_key", "message_approval_hash", "rotate_signers", "run_migration", "signers_hash_by_epoch", "validate_message", "validate_proof", "domain_separator", "minimum_rotation_delay", "previous_signers_retention", "gateway", "owner", "operator", "upgrade", "migrate", "version", "transfer_ownership", "transfer_operatorship"]);
         for _ in 0..ops_per_universe {
             if dead {
                 break;
@@ -387,6 +388,35 @@ pub fn run(ctx: &Ctx, rep: &mut Report) {
                         rep.foreign("honest-approval-refused");
                         dead = true;
                         continue;
+                    }
+                    // entry points of the gateway this workload does not know: each is tried with the
+                    // arguments at hand (the batch and its proof; its first message and the proof; the
+                    // first message alone). Whatever they do, the sweep below judges the result.
+                    for name in &unknown_fns {
+                        let env = w.u.env.clone();
+                        let tuples: Vec<soroban_sdk::Vec<soroban_sdk::Val>> = {
+                            use soroban_sdk::IntoVal;
+                            let msgs = sdk_messages(&env, &batch);
+                            let proof = sdk_proof(&env, &plan);
+                            let first = sdk_message(&env, &batch[0]);
+                            vec![(msgs.clone(), proof.clone()).into_val(&env), (first.clone(), proof.clone()).into_val(&env), (first,).into_val(&env), (msgs,).into_val(&env)]
+                        };
+                        for args in tuples {
+                            let (ga, n2) = (w.g.addr.clone(), name.clone());
+                            let o = w.u.call(Auth::Nobody, &move |env: &soroban_sdk::Env| {
+                                flat(env.try_invoke_contract::<soroban_sdk::Val, soroban_sdk::Error>(&ga, &soroban_sdk::Symbol::new(env, &n2), args.clone())).map(|_| ())
+                            });
+                            rep.count("unknown-entry-point-tried");
+                            if o.ok() {
+                                rep.count("note:unknown-entry-point-accepted-a-call");
+                                rep.step(format!("unknown entry point {} accepted a call", name));
+                                for e in &o.events {
+                                    if e.contract == w.g.sc {
+                                        w.log.push(e.clone());
+                                    }
+                                }
+                            }
+                        }
                     }
                     let newly = w.g.model.apply_approve(&batch);
                     let want: Vec<Ev> = newly.iter().map(|m| w.g.ev_approved(m)).collect();
